@@ -995,6 +995,19 @@ func (c *CEnv) callFn(e *Expr) cv {
 		}
 		v := c.eval(e.Args[1])
 		return cv{V: app("OptS", "some", c.x.encodeValue(c.curState(), fam, v))}
+	case "mapget":
+		// mapget(m, k): Go's m[k] on a map-sorted term (zero value of an integer element for absent keys)
+		m := c.eval(e.Args[0])
+		k := c.term(e.Args[1])
+		if mv, ok := m.V.(*MapV); ok {
+			return c.index1(m, k)
+			_ = mv
+		}
+		mt, ok := m.V.(T)
+		if !ok || !strings.HasPrefix(mt.So, "Map_") {
+			c.fail("mapget needs a map, got %T", m.V)
+		}
+		return cv{V: T{S: fmt.Sprintf("(ite (select (has_%s %s) %s) (select (val_%s %s) %s) 0)", mt.So, mt.S, k.S, mt.So, mt.S, k.S), So: SInt}}
 	case "marshal":
 		// marshal(TypeName, value): the protobuf encoding of a message value (mar_T, injective by the round-trip axiom)
 		t := c.x.e.msgTypeByName(e.Args[0].Val)
@@ -1235,6 +1248,13 @@ func (x *Exec) useSpecAxioms() {
 	x.axiomsLoaded = true
 	for _, sig := range x.specs.specFns {
 		for _, so := range append(append([]string{}, sig.Args...), sig.Res) {
+			if strings.HasPrefix(so, "Map_") {
+				// Map_<K>_<V> over basic sorts
+				if parts := strings.SplitN(so[4:], "_", 2); len(parts) == 2 {
+					x.e.mapSort(parts[0], parts[1])
+					continue
+				}
+			}
 			if strings.HasPrefix(so, "Slc_S_types_") {
 				// a slice of messages: declare the message sort (with its fields) through the Go type
 				if t := x.e.tryMsgType(so[len("Slc_S_types_"):]); t != nil {
@@ -1254,7 +1274,10 @@ func (x *Exec) useSpecAxioms() {
 		c := &CEnv{x: x, st: &State{Worlds: map[int]map[string]T{0: {}}, Heap: map[int]Val{}}, names: map[string]cv{}, bound: map[string]T{}, header: -1}
 		t := x.evalClause(c, ax)
 		x.e.addAxiom("(assert " + t.S + ")")
-		x.e.note("spec axiom " + ax.Name + ": " + ax.Src)
+		// reported as an assumption only by the runs whose queries actually include it
+		x.e.axiomMu.Lock()
+		x.e.axiomNote["(assert "+t.S+")"] = "spec axiom " + ax.Name + ": " + ax.Src
+		x.e.axiomMu.Unlock()
 	}
 }
 
